@@ -1236,3 +1236,114 @@ def class_cases(jobs):
             del linecache.cache[kk]
         out.append({"id": job["id"], "props": ["C17"], "world": w, "steps": steps})
     return out
+
+
+# ---------------------------------------------------------------------------
+# C09: source rewriting
+# ---------------------------------------------------------------------------
+def recode_cases(jobs):
+    """job = {id, prog, wrapper}: render once; run registered on a real Ovld
+    and unregistered with recurse / call_next / own name as ordinary callables."""
+    import linecache
+
+    from ovld import Ovld, call_next, recurse
+
+    from . import progs
+
+    class Boom(Exception):
+        def __init__(self, i):
+            super().__init__(i)
+            self.i = i
+
+    out = []
+    for job in jobs:
+        src, offset = progs.render(job["prog"], job["wrapper"])
+        wrapper = job["wrapper"]
+
+        def run(registered):
+            log = []
+            depth = [0]
+
+            def ev(i):
+                log.append(f"L{i}")
+                return i
+
+            def boom(i):
+                log.append(f"L{i}")
+                raise Boom(i)
+
+            ns = {"LOG": log, "DEPTH": depth, "ev": ev, "boom": boom, "__name__": "vfprog"}
+            fname = f"<vf:prog{job['id']}-{int(registered)}>"
+            linecache.cache[fname] = (len(src), None, src.splitlines(True), fname)
+            res = {"ev": [], "val": 0, "err": 0, "built": "ok", "tb": "none", "lines": []}
+            host = None
+            try:
+                if registered:
+                    ns["recurse"] = recurse
+                    ns["call_next"] = call_next
+                    exec(compile(src, fname, "exec"), ns, ns)
+                    top = ns["make"](7) if wrapper == "closure" else ns["m_top"]
+                    ov = Ovld()
+                    ov.register(top, priority=1)
+                    ov.register(ns["m_next"], priority=0)
+                    ns["F"] = ov.dispatch
+                    if wrapper == "self":
+                        host = type("Host", (), {"f": ov.dispatch, "__module__": "vfprog"})()
+                        call = lambda: host.f(5)  # noqa
+                    else:
+                        call = lambda: ov.dispatch(5)  # noqa
+                    # force the build (a refused placement shows here)
+                    ov.compile()
+                else:
+                    holder = {}
+
+                    def o_recurse(x, *, k=0):
+                        return holder["top"](x, k=k) if host is None else holder["top"](host, x, k=k)
+
+                    def o_next(x, *, k=0):
+                        return ns["m_next"](x, k=k) if host is None else ns["m_next"](host, x, k=k)
+
+                    ns["recurse"] = o_recurse
+                    ns["call_next"] = o_next
+                    ns["F"] = o_recurse
+                    exec(compile(src, fname, "exec"), ns, ns)
+                    holder["top"] = ns["make"](7) if wrapper == "closure" else ns["m_top"]
+                    if wrapper == "self":
+                        host = object()
+                        call = lambda: holder["top"](host, 5)  # noqa
+                    else:
+                        call = lambda: holder["top"](5)  # noqa
+            except BaseException as e:  # noqa
+                res["built"] = f"{type(e).__name__}: {str(e)[:120]}"
+                return res
+            try:
+                v = call()
+                if wrapper == "generator":
+                    v = next(v)
+                res["val"] = int(v)
+            except Boom as e:
+                res["err"] = e.i
+                tb = e.__traceback__
+                lines = []
+                while tb is not None:
+                    if tb.tb_frame.f_code.co_filename == fname:
+                        lines.append(tb.tb_lineno)
+                    tb = tb.tb_next
+                res["lines"] = lines
+                e.__traceback__ = None
+            except BaseException as e:  # noqa
+                res["built"] = f"run: {type(e).__name__}: {str(e)[:120]}"
+                e.__traceback__ = None
+            res["ev"] = list(log)
+            return res
+
+        u = run(False)
+        r = run(True)
+        if r["err"] and u["err"]:
+            r["tb"] = "ok" if r["lines"] == u["lines"] and r["lines"] else "bad"
+        for k in [k for k in linecache.cache if k.startswith("<ovld:") or k.startswith("<vf:")]:
+            del linecache.cache[k]
+        out.append({"id": job["id"], "prog": job["prog"], "wrapper": wrapper, "offset": offset, "src": src,
+                    "reg": {k: r[k] for k in ("ev", "val", "err", "built", "tb")},
+                    "unreg": {k: u[k] for k in ("ev", "val", "err", "built", "tb")}})
+    return out
